@@ -147,7 +147,10 @@ def gen_replay(tier, rng):
         m = _mod(ent['mod'])
         if m is None:
             continue
-        preds = list(getattr(m, 'KNOWN_PREDICATES', {}).values())
+        # only the classes of OPEN known findings of the owning property are set aside (a predicate kept for a repaired
+        # defect excludes nothing)
+        open_names = {e.get('predicate') for e in runner.load_known(m.ID)}
+        preds = [f for n, f in getattr(m, 'KNOWN_PREDICATES', {}).items() if n in open_names]
         stride = ent['stride'][tier]
         k = 0
         shared_n = {}
@@ -162,7 +165,7 @@ def gen_replay(tier, rng):
             if any(p(c) for p in preds):
                 # known-finding class of the owning property: not replayed — except the classes whose defect IS an access
                 # outside the operand (listed as C02 findings too, see known/C02.json), a bounded sample of them
-                hit = [n for n in SHARED_KNOWN.get(ent['mod'], ()) if m.KNOWN_PREDICATES[n](c)]
+                hit = [n for n in SHARED_KNOWN.get(ent['mod'], ()) if n in open_names and n in m.KNOWN_PREDICATES and m.KNOWN_PREDICATES[n](c)]
                 if hit and shared_n.get(hit[0], 0) < (150 if tier == 'quick' else 1000) and _req_elems(c.req) <= 64:
                     shared_n[hit[0]] = shared_n.get(hit[0], 0) + 1
                     yield Case(c.req, c.harness + SAN_SUFFIX, dom=False, oracle=c.oracle, model=False, nontrivial=True,
@@ -807,7 +810,7 @@ ASSUMPTIONS = [
     'slices are exercised only on the domain 0 <= start < stop <= extent, step >= 1 (C05 owns the rest); SIMD evaluation is C12\'s',
     'size_t arithmetic does not wrap: element counts explored are <= 600 per view',
 ]
-PARTIAL = ['diagonal2d_inBounds_partial: only the 2-d, non-negative-offset diagonal is proved in bounds (as in C04)',
+PARTIAL = [
            'capacity theorems cover shape_transpose, shape_reshape, broadcast_shape, shape_tile, remove_dims, shape_concatenate, shape_pad, shape_repeat; the other bounded index results (expand_dims, sliding_window, take, ...) are covered by the capacity hook only']
 def _shared_pred(mod, name):
     def f(case):
@@ -823,18 +826,18 @@ for _m, _names in SHARED_KNOWN.items():
 TRUSTED = ['AddressSanitizer / UndefinedBehaviorSanitizer of g++ 12 and libstdc++ debug assertions as observers of real accesses',
            'the NMTOOLS_VERIF hook commits in $VERIF_REPO (hooks.json)']
 MANIFEST = dict(
-    text='Proof (index level): 60 Lean theorems. Every modelled view kind (49 obligations re-exported from C03/C04/C06/C07/C08/C17: transpose, '
+    text='Proof (index level): 67 Lean theorems. Every modelled view kind (55 obligations re-exported from C03/C04/C06/C07/C08/C17: transpose, '
          'reshape family, flip, swapaxes, moveaxis, tile, pad, take, repeat, concatenate, roll, resize, compress, expand, tril/triu, diagflat, '
-         'sliding_window, split, stack family, broadcast_to/broadcast_arrays, ufunc operand reads, reduce/accumulate reads, pooling windows) maps '
+         'sliding_window (scalar / list windows, axis lists, None), split (sections and cut lists), diagonal (any rank / axis pair / offset), where, stack family, broadcast_to/broadcast_arrays, ufunc operand reads, reduce/accumulate reads, pooling windows) maps '
          'every in-shape destination index to an in-shape source index for all ranks/extents/accepted arguments; in-bounds-ness composes through '
          'chains of any depth and through two-operand trees; an in-shape index addresses a position below the buffer length in both layouts; '
          'evaluators only enumerate in-shape indices; index functions with bounded results write at most the operands\' bound many entries. '
          'Tied to the headers on every run: the real code under ASan+UBSan+_GLIBCXX_ASSERTIONS+asserts and the capacity/clamp/eval-skip hooks, on '
          'chains/trees of 13 view kinds over dynamic, bounded, fixed, hybrid storage (values vs NumPy and vs the Lean composition model), '
-         'mutable views, and a replay of the accepted requests of C03/C04/C06/C07/C08.',
+         'mutable views, and a replay of the accepted requests of C03/C04/C05/C06/C07/C08.',
     note='Lean kernel + propext/Classical.choice/Quot.sound. Said plainly: the theorems are about the hand-written index model; the intra-object '
          'layout of the real buffers (std::array / static_vector members), the real allocation sizes and which bounded container type a '
          'metafunction picks are NOT proved — they are observed by sanitizers + NMTOOLS_VERIF hooks on the explored inputs (sampling, not proof). '
          'An intra-allocation overread is invisible to ASan and is caught only by the value comparison. Slices are used on their safe domain only '
-         '(C05), SIMD access intervals are C12\'s; known-finding classes of the replayed properties are excluded. diagonal is partial (2-d, offset >= 0).',
+         '(C05), SIMD access intervals are C12\'s; known-finding classes of the replayed properties are excluded. diagonal (any rank / axis pair / offset), expand over axis lists, sliding_window lists, split cut lists and where are re-exported from C04 in full.',
     technique='Lean 4 induction proofs (per-kind in-bounds, composition, capacity) + sanitizer/hook-instrumented differential run with NumPy oracle and replay of other properties\' request streams')
